@@ -13,7 +13,16 @@ func (f *Field[T]) ToBits(a *Element[T]) []frontend.Variable {
 	f.enforceWidthConditional(a)
 	ba, aConst := f.constantValue(a)
 	if aConst {
-		res := make([]frontend.Variable, f.fParams.BitsPerLimb()*f.fParams.NbLimbs())
+		// a constant is usually in normal form, but the builder may also fold
+		// the limbs of a computed element into constants (for example x-x
+		// leaves only the subtraction padding). Such element keeps its limb
+		// count and overflow and its value needs nbLimbs*nbBits+overflow bits,
+		// as in the non-constant case.
+		nbBits := max(f.fParams.BitsPerLimb()*f.fParams.NbLimbs(), f.fParams.BitsPerLimb()*uint(len(a.Limbs))+a.overflow)
+		if uint(ba.BitLen()) > nbBits {
+			panic("constant element wider than its limbs and overflow allow")
+		}
+		res := make([]frontend.Variable, nbBits)
 		for i := range res {
 			res[i] = ba.Bit(i)
 		}
